@@ -45,11 +45,13 @@ private def inB (l : Str) : Str := '{' :: urnB ++ '}' :: l
 private def inX (l : Str) : Str := '{' :: urnX ++ '}' :: l
 private def str (s : Str) : Val := .atom (.str s)
 
-/-- witness 1 (finding c03-nsk-prefix-collision): user prefix `ns1` collides with a
-generated prefix — the native writer raises `KeyError` -/
-theorem cx_nsk_collision :
-    nativeWrite tblNsEnv {} [(some ['n', 's', '1'], urnA)]
-      [.start (inB ['R']), .attr (inA ['x']) (str ['1']), .end_ (inB ['R'])] = .error .keyError := by
+/-- repaired (a086d5b, was finding c03-nsk-prefix-collision): a user prefix `ns1` no longer
+collides with a generated one — the map `{'ns1': 'urn:a'}` with an element in `urn:b` and an
+attribute in `urn:a` is written correctly (it used to raise `KeyError`) -/
+theorem ok_nsk_user_prefix :
+    (nativeWrite tblNsEnv {} [(some ['n', 's', '1'], urnA)]
+      [.start (inB ['R']), .attr (inA ['x']) (str ['1']), .end_ (inB ['R'])]).toOption.bind infoset
+      = some (.elem (some urnB, ['R']) [((some urnA, ['x']), ['1'])] []) := by
   rfl
 
 /-- witness 2 (c03-default-ns-attribute): attribute in the user's default namespace is
@@ -98,31 +100,32 @@ theorem cx_nonxml_chars :
       = some false := by
   rfl
 
-/-- witness 9 (c03-standard-prefix-rebound): user binds `xs` elsewhere, a QName in the XML Schema
-namespace rebinds it and the element written with `xs:` changes namespace -/
-theorem cx_standard_prefix_rebound :
+/-- repaired (a086d5b, was finding c03-standard-prefix-rebound): with `xs` bound by the user to
+another namespace, a QName in the XML Schema namespace gets a fresh `ns<k>` prefix and the
+element written with `xs:` stays in the user's namespace -/
+theorem ok_standard_prefix_user_bound :
     (nativeWrite tblNsEnv {} [(some ['x', 's'], urnA)]
       [.start (inA ['R']), .start (inA ['q']),
        .data (.atom (.qname ('{' :: (Tables.nsEnum.head!).1 ++ '}' :: ['i', 'n', 't']))),
        .end_ (inA ['q']), .end_ (inA ['R'])]).toOption.bind infoset
       = some (.elem (some urnA, ['R']) []
-          [.elem (some (Tables.nsEnum.head!).1, ['q']) [] [.text ['x', 's', ':', 'i', 'n', 't']]]) := by
+          [.elem (some urnA, ['q']) [] [.text ['n', 's', '1', ':', 'i', 'n', 't']]]) := by
   rfl
 
 /-- the full-strength statement is false of the code as it stands -/
 theorem write_correct_fails : ¬ WriteCorrect := by
   intro h
-  obtain ⟨toks, h1, _⟩ := h {} [(some ['n', 's', '1'], urnA)]
-    [.start (inB ['R']), .attr (inA ['x']) (str ['1']), .end_ (inB ['R'])]
-    (.elem (some urnB, ['R']) [((some urnA, ['x']), ['1'])] []) (by rfl)
-  rw [cx_nsk_collision] at h1
-  cases h1
+  obtain ⟨toks, h1, h2⟩ := h {} [(some ['x', 'm', 'l'], urnA)]
+    [.start (inA ['R']), .end_ (inA ['R'])] (.elem (some urnA, ['R']) [] []) (by rfl)
+  have h3 := cx_reserved_prefix
+  rw [h1] at h3
+  simp [Except.toOption, nsWellFormed, h2] at h3
 
 /-! ## What holds: the state machine invariant for all well-nested event sequences -/
 
 /-- **write_wellformed (partial)**: for every user prefix map inside `userMapOK`
-(no `ns<digits>` prefix, standard prefixes only on their standard namespaces,
-NCName prefixes, declarable URIs) and every well-nested event sequence whose
+(each entry a legal declaration: NCName prefix other than `xmlns`, `xml` only for the XML
+namespace, declarable URI — `ns<digits>` and standard prefixes are allowed) and every well-nested event sequence whose
 names and values are lexically sound (`contentOK`: NCName local names,
 declarable namespaces, no attribute in the user's default namespace, XML
 characters only, no carriage return in text) and structurally sound
@@ -196,6 +199,14 @@ example :
     ∧ shapeOK true false kids = true := by
   decide +kernel
 
+/-- … by user maps that used to be excluded: a prefix of the form `ns<k>` and a standard
+prefix (`xs`) bound to another namespace -/
+example :
+    let m : List (Pfx × Str) := [(some ['n', 's', '1'], urnA), (some ['x', 's'], urnB), (some ['n', 's', '0'], urnX)]
+    userMapOK tblNsEnv m = true
+    ∧ contentOK tblNsEnv (userDefault m) (.child (inB ['R']) [(inA ['x'], str ['1'])] .nil .nil) = true := by
+  decide +kernel
+
 /-- … and by one with QName values (xsi:type, a QName in text) and generated prefixes -/
 example :
     let m : List (Pfx × Str) := [(some ['p'], urnB)]
@@ -243,18 +254,23 @@ example :
 
 /-! ## Prefix generation -/
 
-/-- **generate_prefix never overwrites**: on a map satisfying the invariant
-(`MapOK`: unique keys, no `ns<k>` key with `k ≥ len`, standard prefixes on their
-standard namespaces), `generate_prefix` for a namespace without prefix appends
-exactly one new key — no existing binding is lost — and the invariant still
-holds, so this is true after any number of generations. -/
-theorem generate_prefix_never_overwrites (d : Option Str) (u : Str) (M : NsMap)
+/-- **generate_prefix never overwrites**: for EVERY prefix map and every namespace,
+`generate_prefix` binds a key that was not in the map: the result is the old map with
+exactly one entry appended, no existing binding is changed or lost.  (The `while` loop
+terminates: among `ns<len>, …, ns<2·len>` at least one is not a key — the model's fuel
+`len + 1` is never exhausted, `Proofs.MapInv.genLoop_spec`.) -/
+theorem generate_prefix_never_overwrites (u : Str) (M : NsMap) :
+    dget M (some (generatePrefix tblNsEnv u M).1) = none
+    ∧ (generatePrefix tblNsEnv u M).2 = M ++ [(some (generatePrefix tblNsEnv u M).1, u)] :=
+  Proofs.MapInv.generatePrefix_appends tblNsEnv u M
+
+/-- **generate_prefix keeps the invariant**: on a map satisfying `MapOK` (unique keys, every
+entry a legal declaration, default namespace not also prefixed) generating a prefix for a
+declarable namespace without prefix keeps `MapOK` — so it holds after any number of generations. -/
+theorem generate_prefix_keeps_invariant (d : Option Str) (u : Str) (M : NsMap)
     (hM : Proofs.MapInv.MapOK tblNsEnv d M) (hu : uriOK u = true) (hne : prefixExists u M = false) :
-    (generatePrefix tblNsEnv u M).2 = M ++ [(some (generatePrefix tblNsEnv u M).1, u)]
-    ∧ dget M (some (generatePrefix tblNsEnv u M).1) = none
-    ∧ Proofs.MapInv.MapOK tblNsEnv d (generatePrefix tblNsEnv u M).2 := by
-  obtain ⟨h1, h2, h3⟩ := Proofs.MapInv.generatePrefix_ok tblNsEnv (Proofs.MapInv.envOK_sound _ tables_ok) d u M hM hu hne
-  exact ⟨h1, h3, h2⟩
+    Proofs.MapInv.MapOK tblNsEnv d (generatePrefix tblNsEnv u M).2 :=
+  (Proofs.MapInv.generatePrefix_ok tblNsEnv (Proofs.MapInv.envOK_sound _ tables_ok) d u M hM hu hne).2.1
 
 /-- **load_prefix returns a bound prefix**: the prefix `QNameConverter.serialize`
 puts in front of a QName value is bound to the QName's namespace in the map that
